@@ -272,7 +272,7 @@ Proof.
   set (name := escape_name ls) in *.
   assert (Hpos : wb_len b - Z.of_nat (length pre) = Z.of_nat (length out)).
   { rewrite (wb_len_live b Hwf), Hlive, app_length. lia. }
-  unfold name_write in H. cbn [wv_msg_relative wv_name_no_trunc wv_ptr_limit wfixed] in H.
+  unfold name_write in H. cbn [wv_msg_relative wv_name_no_trunc wv_ptr_limit wv_strip_dangling_escape wfixed] in H.
   rewrite Hpos in H.
   replace (slen name >=? 512) with false in H by (symmetry; rewrite Z.geb_leb; apply Z.leb_gt; exact Ht).
   cbn [andb] in H.
